@@ -1,6 +1,6 @@
 (* C08 — table obligations: facts about the source as extracted into Tables.v on this run (through Cfg.src_cfg),
    each discharged by closed computation.  When the source changes exactly the lemma naming that shape stops checking. *)
-From G08 Require Import Cfg Spec Proofs V1Proofs.
+From G08 Require Import Cfg Spec Proofs V1Proofs InvProofs.
 
 (* identifier length and the two signatures *)
 Lemma ob_common : cfg_common_ok src_cfg.
@@ -20,6 +20,11 @@ Proof. vm_compute. repeat split; repeat constructor. Qed.
    or RemoteAddr/LocalAddr fall back to the socket *)
 Lemma ob_no_nil : cfg_no_nil_ok src_cfg.
 Proof. vm_compute. first [left; reflexivity | right; split; reflexivity]. Qed.
+
+(* the repaired shapes: ports parsed strictly (F10), separator / trailing fields / address family checked,
+   unassigned v2 commands and families rejected (F8) *)
+Lemma ob_strict : cfg_strict_ok src_cfg.
+Proof. vm_compute. repeat split. Qed.
 
 (* slices stay inside the 232-byte buffer (a slice beyond it would be a run-time panic) *)
 Lemma ob_buffer_bounds :
